@@ -155,7 +155,11 @@ def tps_pseudoinverse(ctx, kernel, n):
             kw['min_singular_val'] = msv
         tps = T.ThinPlateSplines(src, tgt, **kw)
         ctx.check_eq('interpolates', tps.apply(src.points), tgt.points, tol=1e-5)
+        from .state import state_of, compare_states
+        before = state_of(tps)
         q = tps.pseudoinverse()
+        compare_states(ctx, 'frame/receiver-unchanged', state_of(tps), before)
+        ctx.check_true('frame/inverse-has-its-own-kernel', q.kernel is not tps.kernel)
         ctx.check_true('inverse/class', type(q) is type(tps))
         ctx.check_true('inverse/source-is-old-target', q.source is tps.target)
         ctx.check_true('inverse/target-is-old-source', q.target is tps.source)
@@ -195,7 +199,13 @@ def pwa_setup(ctx, n_tris, tag=''):
 
 
 def _pwa_cfgs(tier):
-    return [dict(n_tris=1), dict(n_tris=2)]
+    return [dict(n_tris=n, target=t) for n in (1, 2) for t in ('PointCloud', 'TriMesh-own-triangulation')]
+
+
+# a target that is itself a mesh, triangulated differently from the source
+# (other diagonal of the quad / rotated vertex order): the reverse fit must
+# still use the SOURCE triangulation
+OTHER_TRILIST = {1: [[1, 2, 0]], 2: [[0, 1, 3], [0, 3, 2]]}
 
 
 @contract('C04', 'pwa_pseudoinverse', configs=_pwa_cfgs, max_paths=400, functions=[
@@ -211,12 +221,14 @@ def _pwa_cfgs(tier):
     'menpo.transform.piecewiseaffine.base:containment_from_alpha_beta',
     'menpo.transform.piecewiseaffine.base:barycentric_vectors',
 ])
-def pwa_pseudoinverse(ctx, n_tris):
+def pwa_pseudoinverse(ctx, n_tris, target='PointCloud'):
     """the PWA pseudoinverse is the PWA fitted in the reverse direction on the
     same triangulation: it sends every target vertex onto its source vertex and
     undoes the forward map on points of the domain."""
     T, S = B.menpo_mods()
     src, tgt, trilist = pwa_setup(ctx, n_tris)
+    if target != 'PointCloud':
+        tgt = S.TriMesh(tgt.points, trilist=np.array(OTHER_TRILIST[n_tris], dtype=np.int64), copy=False)
     pwa = T.PiecewiseAffine(src, tgt)
     sp0, tp0 = src.points.copy(), tgt.points.copy()
     ctx.check_true('declares-true-inverse', pwa.has_true_inverse is True)
